@@ -32,6 +32,7 @@ type Obligation struct {
 
 // Exec is one symbolic-execution session (one Builder; not safe for concurrent use).
 type Exec struct {
+	implIfaces map[string]types.Type
 	implCache map[string][]implCase
 	RootPkg string // package path of the function under verification (see usable)
 	B       *smt.Builder
@@ -137,6 +138,9 @@ func (x *Exec) typeID(t types.Type) *smt.Term {
 	id := x.B.IntC(n)
 	x.typeIDs[k] = id
 	x.typeOf[n] = t
+	for name, J := range x.implIfaces {
+		x.assumeGlobal(x.B.Eq(x.B.UF(name, smt.Bool, id), x.B.BoolC(types.Implements(t, J.Underlying().(*types.Interface)))))
+	}
 	return id
 }
 
@@ -227,6 +231,7 @@ type loopInfo struct {
 	header  *ssa.BasicBlock
 	blocks  map[*ssa.BasicBlock]bool
 	ordinal int
+	steps   []*spec.Clause // "loop N step e": relation between the variables at the start (prev(v)) and at the end of every iteration
 	inv     []*spec.Clause
 	dec     []*spec.Clause
 	variant *smt.Term // value of the decreases expression at the header
@@ -268,6 +273,8 @@ type Frame struct {
 	outer      *Frame // frame of the enclosing function (for closure contracts)
 	iters      map[*ssa.Range]*rangeIter
 	inOld      int
+	stepFrom   *ssa.BasicBlock // ... and the block the back edge leaves from (names of the loop body resolve there)
+	prevVals   map[*ssa.Phi]Value // while a "loop N step" clause is evaluated: the loop variables at the start of the iteration
 	pathMode   bool // loop-free function explored path by path, without merging states at joins
 	pathCount  int
 	beforeSeen int // call-site assertions ("before") emitted
@@ -350,6 +357,17 @@ func (f *Frame) indexNames() {
 
 // lookupName resolves a source-level variable name at the current program point.
 func (f *Frame) lookupName(name string) (nameDef, bool) {
+	d, ok := f.lookupName1(name)
+	if !ok && f.stepFrom != nil {
+		sc, si := f.cur, f.curIdx
+		f.cur, f.curIdx = f.stepFrom, len(f.stepFrom.Instrs)
+		d, ok = f.lookupName1(name)
+		f.cur, f.curIdx = sc, si
+	}
+	return d, ok
+}
+
+func (f *Frame) lookupName1(name string) (nameDef, bool) {
 	defs := f.names[name]
 	var best nameDef
 	found := false
@@ -547,6 +565,9 @@ func (f *Frame) findLoops() {
 				}
 				if c.Loop == li.ordinal && c.Kind == "decreases" {
 					li.dec = append(li.dec, c)
+				}
+				if (c.Loop == li.ordinal || c.Loop == -1) && c.Kind == "step" {
+					li.steps = append(li.steps, c)
 				}
 			}
 		}
@@ -1187,6 +1208,19 @@ func (f *Frame) closeLoop(li *loopInfo, from *ssa.BasicBlock, st *State) {
 			g = B.And(B.IntOp("<=", B.IntC(0), li.variant), B.IntOp("<", nv, li.variant))
 		}
 		x.oblige(fmt.Sprintf("loop%d-decreases", li.ordinal), li.dec[0].Text, fmt.Sprintf("%s:%d", shortFile(li.dec[0].File), li.dec[0].Line), st, g)
+	}
+	if len(li.steps) > 0 {
+		// transition relation of one iteration: names denote the values at the end of the iteration
+		// (variables of the loop body included), prev(e) evaluates e with the loop's variables at
+		// the values they had at its start
+		f.stepFrom = from
+		f.prevVals = saved
+		for _, c := range li.steps {
+			g := f.evalBool(c.Expr, st, f.entry)
+			x.oblige(fmt.Sprintf("loop%d-step", li.ordinal), c.Text, fmt.Sprintf("%s:%d", shortFile(c.File), c.Line), st, g)
+		}
+		f.prevVals = nil
+		f.stepFrom = nil
 	}
 	f.cur, f.curIdx = sc, si
 	for _, phi := range li.phis {
